@@ -27,7 +27,10 @@ What is modelled literally (because the properties are about exactly this):
   are the "racing" accesses and log dirty addresses;
 * startup (`openDb`): writes `schema-name` once, and repairs `gcSize` only upwards;
 * `shed.Item.Merge` effects that matter: `Get(ModeGetPin)` returns empty data, `setSync` writes a gc
-  entry with `GCounter = 0`; uint64 wrap-around of `GCounter--` / `PinCounter--` / `gcSize-collected`.
+  entry with `GCounter = 0`; uint64 wrap-around of `GCounter--` / `GCounter++` (`setGC`, `setUnpin`) /
+  `PinCounter--` / `gcSize-collected` / `gcSize+change`.  NOT wrapped (kept as unbounded `Nat`, documented in
+  notes/C13.md): `PinCounter++` and `binIDs[po]++` — both counters only ever reach `2^64 − 1` by that many
+  increments (a pin entry is never stored with value 0, so `PinCounter--` never wraps on a reachable store).
 
 Every operation returns its ordered **driver write list** (`List DW`): direct writes in order, then
 the batch commit as one write (an empty batch commit is still a write).  The state after the
@@ -241,7 +244,7 @@ def setGC (tx : Tx) (root : Option Addr) (rootBin : Nat) : Except (Err × Tx) Tx
       let key : GcKey := ⟨ts, bin, r⟩
       let cnt := match SMap.get key tx.db.gc with
         | none => 1
-        | some c => c + 1
+        | some c => (c + 1) % two64   -- `gcItem.GCounter++` on a uint64
       .ok ((tx.inBatch (.gcPut key cnt)).addChange 1)
 
 /-- the root part of `setPin`: the root's gc entry loses one chunk (`gcIndex.DeleteInBatch` when
@@ -290,7 +293,7 @@ def setUnpin (tx : Tx) (a : Addr) (root : Option Addr) : Except (Err × Tx) Tx :
           let key : GcKey := ⟨t, rd.binID, r⟩
           let cnt := match SMap.get key tx.db.gc with
             | none => 1
-            | some c => c + 1
+            | some c => (c + 1) % two64   -- `gcItem.GCounter++` on a uint64
           .ok ((tx.inBatch (.gcPut key cnt)).addChange 1)
 
 /-- `setSync(batch, addr)`; note the gc entry is written with `GCounter = 0` -/
